@@ -2,8 +2,6 @@ package fixtures
 
 import (
 	"strings"
-
-	"github.com/alecthomas/participle/v2"
 )
 
 // Ported from /repo/_examples/expr/main.go (a basic expression parser; display and evaluation dropped).
@@ -60,7 +58,7 @@ type exprExpression struct {
 	Right []*exprOpTerm `@@*`
 }
 
-var exprParser = participle.MustBuild[exprExpression]()
+var exprParser = mustBuild[exprExpression]()
 
 func init() {
 	f := Register("expr", exprParser, nil,
